@@ -27,7 +27,7 @@ Canon(v, Rend) ==
     [] v.t = "obj" -> VObj(SortByKey([i \in 1..Len(v.entries) |-> Entry(v.entries[i].k, Canon(v.entries[i].v, Rend))]))
     [] OTHER -> v
 
-CanonText(v, Rend) == Print(Canon(v, Rend), Compact)
+CanonText(v, Rend) == Render(Canon(v, Rend), Compact)
 
 \* no duplicate keys anywhere (I-JSON)
 RECURSIVE UniqueKeys(_)
